@@ -20,6 +20,9 @@ MIRDIR = os.path.join(WORK, "mir")
 
 def dump_lib_mir():
     os.makedirs(MIRDIR, exist_ok=True)
+    import fcntl
+    lock = open(os.path.join(MIRDIR, "lib.lock"), "w")
+    fcntl.flock(lock, fcntl.LOCK_EX)   # two properties may ask for the dump at the same time
     tgt = os.path.join(MIRDIR, "target-lib")
     fp = os.path.join(tgt, "debug", ".fingerprint")
     if os.path.isdir(fp):
